@@ -229,6 +229,7 @@ Proof.
       wok; auto. apply W_applicable.
       pose proof (W_apply_body c (length (doms m)) m1 (length (ops m)) oi (nth s (sts m) dflt_s) F15 F16) as Wb.
       rewrite Eb, Es1, Es0 in Wb; auto.
+  - cbn [snd]. wok. apply fresh_state_cells. intros; unfold okw; simpl; lia.
 Qed.
 
 (* ------------------------------------------------------------------ the invariant *)
@@ -253,7 +254,7 @@ Lemma reach_live : forall m v, Inv m -> In v (values m) ->
   Forall (live (length (doms m)) (length (sts m))) (reach m v).
 Proof.
   intros m v [HS HD] Hv. unfold values in Hv. destruct Hv as [<-|Hv].
-  - simpl. constructor; [unfold live; simpl; auto | constructor].
+  - simpl. repeat (constructor; [unfold live; simpl; auto |]). constructor.
   - apply in_app_or in Hv as [Hv|Hv]; apply in_map_iff in Hv as [i [<- Hi]]; apply in_seq in Hi; simpl in Hi.
     + simpl. unfold dom_cells. constructor; [| constructor].
       * apply HD. apply nth_In; lia.
@@ -383,6 +384,7 @@ Proof.
         -- eapply Forall_impl; [| apply L2]. intros l Hl. eapply live_mono; [| | apply Hl]; lia.
     + destruct (ev_apply_body c m1 (length (ops m)) oi (nth s (sts m) dflt_s)) as [m2 evb] eqn:Eb. cbn [fst].
       pose proof (Inv_apply_body c m1 (length (ops m)) oi (nth s (sts m) dflt_s) F16 H1) as G. rewrite Eb in G; auto.
+  - cbn [fst]. apply Inv_add_state; auto. apply fresh_state_cells. intros; unfold live; simpl; lia.
 Qed.
 
 (* ------------------------------------------------------------------ the frame theorem *)
@@ -474,6 +476,7 @@ Proof.
     + destruct (ev_apply_body c m1 (length (ops m)) oi (nth s (sts m) dflt_s)) as [m2 evb] eqn:Eb. cbn [fst].
       eapply extends_trans; [apply X|].
       pose proof (apply_body_extends c m1 (length (ops m)) oi (nth s (sts m) dflt_s)) as G. rewrite Eb in G; auto.
+  - cbn [fst]. apply add_state_extends.
 Qed.
 
 Lemma extends_values : forall m m' v, extends m m' -> In v (values m) -> In v (values m').
